@@ -137,10 +137,22 @@ class ReleaseDuring(Scenario):
                 for t, body in rd.pdus[seen_pdus:]:
                     if t == 2 and not state["req_sent"]:
                         state["req_sent"] = True
+                        rq_bytes = dp.find_rq(1, 21) if op == "find" else (dp.get_rq(3, 21) if op == "get" else dp.move_rq(7, 21))
                         if point == ("idle",):
                             send_release("idle")
+                        elif point[0] == "with-request":
+                            # request and release request back to back: both are pending when the reactor
+                            # takes the request off its queue (one segment, or two segments)
+                            state["released"] = True
+                            flags["release_sent_at"] = s.now
+                            PS["log"].append(("release-rq", "with-request"))
+                            if point[1] == "one-segment":
+                                so.send(rq_bytes + dp.P.RELEASE_RQ)
+                            else:
+                                so.send(rq_bytes)
+                                so.send(dp.P.RELEASE_RQ)
                         else:
-                            so.send(dp.find_rq(1, 21) if op == "find" else (dp.get_rq(3, 21) if op == "get" else dp.move_rq(7, 21)))
+                            so.send(rq_bytes)
                     elif t == 6:
                         PS["rp_at"] = s.now
                     elif t == 7:
@@ -215,7 +227,7 @@ def scenarios(quick):
     out = []
     for op in ("find", "get", "move"):
         for n in range(0, 4):
-            pts = [("idle",), ("after",)] + [("yield", k) for k in range(n + 1) if not (op in ("get", "move") and n == 0)]
+            pts = [("idle",), ("after",), ("with-request", "one-segment"), ("with-request", "two-segments")] + [("yield", k) for k in range(n + 1) if not (op in ("get", "move") and n == 0)]
             if op == "get":
                 pts += [("substore", k) for k in range(n)]
             for p in pts:
@@ -229,7 +241,7 @@ def run(ctx: core.Ctx) -> core.Result:
     res = explore.explore_family(scns, D=D, seed=ctx.seed)
     deep = []
     if ctx.quick:
-        deep = [s for s in scns if (s.op, s.n) in (("find", 2), ("get", 2), ("move", 2)) and s.point[0] in ("yield", "substore", "idle")]
+        deep = [s for s in scns if (s.op, s.n) in (("find", 2), ("get", 2), ("move", 2)) and s.point[0] in ("yield", "substore", "idle", "with-request")]
         res2 = explore.explore_family(deep, D=1, seed=ctx.seed)
     else:
         res2 = []
